@@ -108,8 +108,13 @@ def rule_frame(ctx):
     fk = finish_key(facts)
     site = fn_site(facts, fk)
     targets = set()
-    for e in models.mut_effects(facts.body(fk)):
-        targets.add(e["target"])
+    fb = facts.body(fk)
+    for e in models.mut_effects(fb):
+        tg = e["target"]
+        if tg[0] == "var" and isinstance(tg[1], int) and tg[1] < len(fb.locals) and "&mut" not in fb.locals[tg[1]]["ty"] and "Mut<" not in fb.locals[tg[1]]["ty"] and tg[1] > fb.arg_count:
+            # `&mut` of a by-value local that holds no mutable borrow (an iterator being advanced: `ns.chars().all(..)`)
+            continue
+        targets.add(tg)
     stores = [w for l in (1, 2) for w in facts.body(fk).partial_writes(l) if not facts.body(fk).is_cleanup(w[0])]
     ctx.ob("FRAME", "finish takes mutable access only to parts.name", targets <= {("arg", 2, "name")} and not stores, fn=fk, site=site, detail="mutable targets: %s; direct stores: %d" % (sorted(targets), len(stores)))
     helpers = helper_roles(facts, fk)
